@@ -2,6 +2,8 @@ package main
 
 import (
 	"fmt"
+	"go/types"
+	"reflect"
 	"strings"
 
 	"golang.org/x/tools/go/ssa"
@@ -183,6 +185,90 @@ type kvIter struct {
 	hasUp  bool
 }
 
+// concreteZero: v is certainly the zero / empty value (what `omitempty` omits)
+func concreteZero(v Value) bool {
+	switch x := v.(type) {
+	case nil:
+		return true
+	case *Term:
+		return x.IsConst() && x.val == 0
+	case Str:
+		return len(x) == 0
+	case Slice:
+		return x.len == 0
+	case Ptr:
+		return x.obj == nil
+	case Iface:
+		return x.t == nil
+	case *Map:
+		return x == nil || len(x.keys) == 0
+	case Struct:
+		for _, f := range x {
+			if !concreteZero(f) {
+				return false
+			}
+		}
+		return true
+	case Array:
+		for _, f := range x {
+			if !concreteZero(f) {
+				return false
+			}
+		}
+		return true
+	}
+	return false
+}
+
+// jsonMerge: the value of dst after json.Unmarshal(json.Marshal(src), &dst) for the struct type t of
+// hooks/storage (tags: `json:"name,omitempty"`): fields whose key is present overwrite, nested structs are
+// merged, and an `omitempty` field that is empty in src is absent and leaves dst's field as it was. Where dst's
+// field is certainly empty anyway (a fresh value, the normal case) nothing has to be decided.
+func (ex *Exec) jsonMerge(dst, src Value, t types.Type) Value {
+	st, ok := src.(Struct)
+	if !ok || t == nil {
+		return src
+	}
+	ts, ok := t.Underlying().(*types.Struct)
+	ds, ok2 := dst.(Struct)
+	if !ok || !ok2 || ts.NumFields() != len(st) || len(ds) != len(st) {
+		return src
+	}
+	out := make(Struct, len(st))
+	for i := range st {
+		tag := reflect.StructTag(ts.Tag(i)).Get("json")
+		name, opts, _ := strings.Cut(tag, ",")
+		if name == "-" {
+			out[i] = ds[i]
+			continue
+		}
+		omitempty := strings.Contains(opts, "omitempty")
+		ft := ts.Field(i).Type()
+		if _, isStruct := ft.Underlying().(*types.Struct); isStruct {
+			out[i] = ex.jsonMerge(ds[i], st[i], ft) // structs are never "empty" for omitempty: always present, merged
+			continue
+		}
+		if omitempty && !concreteZero(ds[i]) {
+			// absent iff empty in src
+			empty := concreteZero(st[i])
+			if tm, isT := st[i].(*Term); isT && !tm.IsConst() {
+				z := Const(tm.width, 0)
+				if tm.width == 0 {
+					empty = ex.branch(Not(tm))
+				} else {
+					empty = ex.branch(Eq(tm, z))
+				}
+			}
+			if empty {
+				out[i] = ds[i]
+				continue
+			}
+		}
+		out[i] = st[i]
+	}
+	return out
+}
+
 func handleOf(v Value) *kvHandle { return v.(Ptr).obj.v.(*kvHandle) }
 func iterOf(v Value) *kvIter     { return v.(Ptr).obj.v.(*kvIter) }
 
@@ -203,7 +289,16 @@ func init() {
 			if !ok {
 				return ex.newErr("invalid JSON (not a stored record)")
 			}
-			args[0].(Ptr).store(v)
+			// encoding/json leaves a field alone when its key is absent, and MarshalBinary leaves out every
+			// `omitempty` field that is empty: unmarshalling into a value that is not fresh keeps its old content there
+			dst := args[0].(Ptr)
+			var rt types.Type
+			if r := fn.Signature.Recv(); r != nil {
+				if pt, ok := r.Type().Underlying().(*types.Pointer); ok {
+					rt = pt.Elem()
+				}
+			}
+			dst.store(ex.jsonMerge(dst.load(), v, rt))
 			return Iface{}
 		}
 	}
